@@ -2,7 +2,7 @@
 From Coq Require Import String.
 From Http Require Import Model.Bytes Model.Utf8 Model.Num Model.Headers Model.Request Model.Chunked
      Spec.Delivery Spec.ChunkedGrammar Proofs.ChunkResume Proofs.ChunkGrammar Proofs.FeedGeneric
-     Proofs.C02Response.
+     Proofs.C02Response Spec.Rejections Proofs.ChunkRejects.
 
 (* The grammar (Spec/ChunkedGrammar.v), pinned: *)
 Check (IC_last : forall line block fields,
@@ -64,6 +64,13 @@ Proof.
   destruct HF as [-> ->]. exists r1. reflexivity.
 Qed.
 Print Assumptions C05_decodes_exactly_under_any_delivery.
+
+(* rejections: the decoder rejects with category e exactly when the input consists of well-formed
+   chunks followed by a first offending element of that category (Spec/Rejections.v) *)
+Theorem C05_rejection_names_first_defect :
+  forall s e, (exists st, chunk_decode chunk_init s = (st, Reject e)) <-> chunked_defect s e.
+Proof. exact chunk_reject_iff. Qed.
+Print Assumptions C05_rejection_names_first_defect.
 
 (* non-vacuity *)
 Example C05_example :
